@@ -553,6 +553,7 @@ class _ServiceBrowserBase(RecordUpdateListener):
 
     __slots__ = (
         'types',
+        '_types_by_key',
         'zc',
         '_cache',
         '_loop',
@@ -596,6 +597,10 @@ class _ServiceBrowserBase(RecordUpdateListener):
         for check_type_ in self.types:
             # Will generate BadTypeInNameException on a bad name
             service_type_name(check_type_, strict=False)
+        # DNS names compare case-insensitively: a pointer whose owner name is
+        # spelled in another case is cached as the same record, it has to be
+        # reported as well (under the type as the caller spelled it)
+        self._types_by_key: Dict[str, str] = {type_.lower(): type_ for type_ in self.types}
         self.zc = zc
         self._cache = zc.cache
         assert zc.loop is not None
@@ -643,9 +648,12 @@ class _ServiceBrowserBase(RecordUpdateListener):
 
     def _names_matching_types(self, names: Iterable[str]) -> List[Tuple[str, str]]:
         """Return the type and name for records matching the types we are browsing."""
-        return [
-            (type_, name) for name in names for type_ in self.types.intersection(cached_possible_types(name))
-        ]
+        return [(type_, name) for name in names for type_ in self._types_matching(name)]
+
+    def _types_matching(self, name: str) -> List[str]:
+        """Return the browsed types a name belongs to."""
+        types_by_key = self._types_by_key
+        return [types_by_key[key] for key in cached_possible_types(name.lower()) if key in types_by_key]
 
     def _enqueue_callback(
         self,
@@ -684,7 +692,7 @@ class _ServiceBrowserBase(RecordUpdateListener):
                 if TYPE_CHECKING:
                     record = cast(DNSPointer, record)
                 pointer = record
-                for type_ in self.types.intersection(cached_possible_types(pointer.name)):
+                for type_ in self._types_matching(pointer.name):
                     if old_record is None:
                         self._enqueue_callback(SERVICE_STATE_CHANGE_ADDED, type_, pointer.alias)
                         self.query_scheduler.reschedule_ptr_first_refresh(pointer)
